@@ -94,7 +94,7 @@ def preprocess(body):
 
 
 # ----------------------------------------------------------------------------- tokens
-TOK = re.compile(r"\s*(->|\+\+|\+=|-=|==|!=|<=|>=|&&|\|\||[A-Za-z_]\w*|\d+\.\d+|\d+|[()\[\]{};,+\-*/<>=!&])")
+TOK = re.compile(r"\s*(->|\+\+|--|\+=|-=|==|!=|<=|>=|&&|\|\||[A-Za-z_]\w*|\d+\.\d+|\d+|[()\[\]{};,+\-*/<>=!&.])")
 
 
 def tokenize(txt):
@@ -111,6 +111,7 @@ def tokenize(txt):
 
 # ----------------------------------------------------------------------------- parser
 CTYPES = {"idx_t": "Z", "int": "Z", "seq_t": "cost", "bool": "bool"}
+STRUCT_TYPES = {"DTWWps": "DTWWps_s"}
 
 
 class Parser:
@@ -145,6 +146,10 @@ class Parser:
                 self.eat()
                 f = self.eat()
                 return ("field", x, f)
+            if self.peek() == ".":
+                self.eat()
+                f = self.eat()
+                return ("var", x + "_" + f)       # member of a local struct: one variable per member
             if self.peek() == "(":
                 self.eat()
                 args = []
@@ -174,7 +179,8 @@ class Parser:
             self.eat()
             return ("un", "-", self.unary())
         if self.peek() == "&":
-            raise TranslateError("address-of")
+            self.eat()
+            return ("addr", self.eat())
         return self.primary()
 
     def binlevel(self, ops, sub):
@@ -226,17 +232,33 @@ class Parser:
             return []
         if x == "{":
             return self.block()
-        if x in CTYPES:
+        if x in STRUCT_TYPES:
             self.eat()
             name = self.eat()
-            if self.peek() == "*":
-                raise TranslateError("pointer declaration")
-            init = None
-            if self.peek() == "=":
-                self.eat()
-                init = self.expr()
+            self.eat("=")
+            init = self.expr()
             self.eat(";")
-            return [self.new(k="decl", ty=CTYPES[x], name=name, init=init)]
+            if init[0] != "call":
+                raise TranslateError("struct %s initialised by something else than a call" % name)
+            return [self.new(k="structinit", sty=STRUCT_TYPES[x], name=name, call=init)]
+        if x in CTYPES:
+            self.eat()
+            out = []
+            while True:
+                if self.peek() == "*":
+                    raise TranslateError("pointer declaration")
+                name = self.eat()
+                init = None
+                if self.peek() == "=":
+                    self.eat()
+                    init = self.expr()
+                out.append(self.new(k="decl", ty=CTYPES[x], name=name, init=init))
+                if self.peek() == ",":
+                    self.eat()
+                    continue
+                break
+            self.eat(";")
+            return out
         if x == "__alloc":
             self.eat()
             self.eat("(")
@@ -267,21 +289,45 @@ class Parser:
                 declared = True
             else:
                 declared = False
-            v = self.eat()
-            self.eat("=")
-            lo = self.expr()
+            if self.peek() == ";":
+                v, lo = None, None            # for (; x<b; x++): continues from the current value of x
+            else:
+                v = self.eat()
+                self.eat("=")
+                lo = self.expr()
             self.eat(";")
             v2 = self.eat()
-            self.eat("<")
-            hi = self.add()
-            self.eat(";")
-            v3 = self.eat()
-            self.eat("++")
-            self.eat(")")
-            if not (v == v2 == v3):
-                raise TranslateError("for loop over %s/%s/%s is not of the form (x=a; x<b; x++)" % (v, v2, v3))
-            body = self.block()
-            return [self.new(k="for", v=v, lo=lo, hi=hi, body=body, declared=declared)]
+            if v is None:
+                v, lo = v2, ("var", v2)
+            rel = self.eat()
+            if rel == "<":
+                hi = self.add()
+                self.eat(";")
+                v3 = self.eat()
+                self.eat("++")
+                self.eat(")")
+                if not (v == v2 == v3):
+                    raise TranslateError("for loop over %s/%s/%s is not of the form (x=a; x<b; x++)" % (v, v2, v3))
+                body = self.block()
+                return [self.new(k="for", v=v, lo=lo, hi=hi, body=body, declared=declared)]
+            if rel == ">":
+                # for (x=a; x>b [&& cond]; x--): x runs over a, a-1, ..., b+1 and stops as soon as cond fails
+                lowb = self.add()
+                extra = None
+                if self.peek() == "&&":
+                    self.eat()
+                    extra = self.land()
+                self.eat(";")
+                v3 = self.eat()
+                self.eat("--")
+                self.eat(")")
+                if not (v == v2 == v3):
+                    raise TranslateError("for loop over %s/%s/%s is not of the form (x=a; x>b; x--)" % (v, v2, v3))
+                body = self.block()
+                if extra is not None:
+                    body = [self.new(k="if", c=("un", "!", extra), a=[self.new(k="break")], b=[])] + body
+                return [self.new(k="for", v=v, lo=lo, hi=lowb, body=body, declared=declared, down=True)]
+            raise TranslateError("for loop condition %s %s" % (v2, rel))
         if x == "break":
             self.eat()
             self.eat(";")
@@ -305,6 +351,9 @@ class Parser:
         if op == "++":
             self.eat(";")
             return [self.new(k="assign", lhs=lhs, e=("bin", "+", lhs, ("num", "1")))]
+        if op == "--":
+            self.eat(";")
+            return [self.new(k="assign", lhs=lhs, e=("bin", "-", lhs, ("num", "1")))]
         if op not in ("=", "+=", "-="):
             raise TranslateError("assignment operator %r" % op)
         e = self.expr()
@@ -318,7 +367,7 @@ class Parser:
 def subexprs(e):
     """(array names used, sub-expressions) of a node"""
     k = e[0]
-    if k in ("num", "var", "field"):
+    if k in ("num", "var", "field", "addr"):
         return [], []
     if k == "idx":
         return [e[1]], [e[2]]
@@ -374,6 +423,8 @@ def stmt_exprs(s):
         return [s["size"]] + ([s["fill"]] if s.get("fill") is not None else [])
     if k == "assert":
         return [s["c"]]
+    if k == "structinit":
+        return [s["call"]]
     if k == "assign":
         return [s["lhs"], s["e"]] if s["lhs"][0] != "var" else [s["e"]]
     if k == "retstate":
@@ -421,6 +472,8 @@ def assigned(stmts):
             out.add(s["name"])
         elif s["k"] == "assign":
             out.add(s["lhs"][1])
+        elif s["k"] == "for":
+            out.add(s["v"])           # the loop leaves its variable at the first value that fails the test
     if touches_ok(stmts):
         out.add("ok")
     return out
@@ -449,6 +502,9 @@ def always_exits(stmts):
     return False
 
 
+OUT_ARRAYS = []       # arrays the function under translation returns next to its value
+
+
 def live_block(stmts, out, ctx, ann):
     """backward liveness; ann[id] = live-out of the statement; ctx = (live at break, live at continue)"""
     live = set(out)
@@ -470,6 +526,8 @@ def live_block(stmts, out, ctx, ann):
         elif k == "assert":
             live |= uses(s["c"])
             live.add("ok")
+        elif k == "structinit":
+            live = {x for x in live if not x.startswith(s["name"] + "_")} | uses(s["call"])
         elif k == "assign":
             if s["lhs"][0] == "var":
                 live.discard(s["lhs"][1])
@@ -502,7 +560,7 @@ def live_block(stmts, out, ctx, ann):
         elif k == "continue":
             live = set(ctx[1])
         elif k == "return":
-            live = uses(s["e"]) | {"ok"}
+            live = uses(s["e"]) | {"ok"} | set(OUT_ARRAYS)
         elif k == "retstate":
             live = set(s["vars"]) | {"ok"}
         else:
@@ -516,6 +574,9 @@ RESERVED = {"length": "length", "fix": "fix_", "in": "in_", "end": "end_", "let"
 
 
 class Emitter:
+    struct_defs = {}
+    int_oracles = {"dtw_wps_shift"}      # functions returning idx_t
+
     def __init__(self, fname, params, body_stmts, struct_fields, in_bounds):
         """params: list of (ctype-kind, name) with kind in Z / in (seq_t *) / settings"""
         self.fname = fname
@@ -531,6 +592,8 @@ class Emitter:
             else:
                 self.types[n] = ty
         self.types["ok"] = "bool"
+        self.struct_vars = {}     # local struct variable -> {member: type}
+        self.out_arrays = [n for ty, n in params if ty == "arr"]
         self.defs = []        # (name, [(param, type)], ret type, text)
         self.nloop = 0
         self.njoin = 0
@@ -545,6 +608,11 @@ class Emitter:
             elif s["k"] == "alloc":
                 self.types[s["name"]] = "arr"
                 self.types[s["name"] + "_len"] = "Z"
+            elif s["k"] == "structinit":
+                members = self.struct_defs[s["sty"]]
+                self.struct_vars[s["name"]] = members
+                for f, ty in members.items():
+                    self.types[s["name"] + "_" + f] = ty
             elif s["k"] == "for" and s["declared"]:
                 self.types[s["v"]] = "Z"
             for e in stmt_exprs(s):
@@ -557,6 +625,8 @@ class Emitter:
                         raise TranslateError("unknown settings field %s" % f)
                     self.used_fields.add(f)
         self.ann = {}
+        global OUT_ARRAYS
+        OUT_ARRAYS = list(self.out_arrays)
         live_in = live_block(body_stmts, set(), (set(), set()), self.ann)
         pnames = {n for ty, n in params} | {"ok"}
         undefined = live_in - pnames
@@ -623,9 +693,10 @@ class Emitter:
             if op in ("&&", "||"):
                 a, _, oa = self.ex(e[2], "bool")
                 b, _, ob = self.ex(e[3], "bool")
-                if ob:
-                    raise TranslateError("%s: array access in the right operand of %s" % (self.fname, op))
-                return "(%s %s %s)" % (a, "&&" if op == "&&" else "||", b), "bool", oa
+                # the right operand is only evaluated when the left one does not decide: its accesses are guarded
+                g = a if op == "&&" else "(negb %s)" % a
+                ob = [(o[0], o[1], g if len(o) == 2 else "(%s && %s)" % (g, o[2])) for o in ob]
+                return "(%s %s %s)" % (a, "&&" if op == "&&" else "||", b), "bool", oa + ob
             a, ta, oa = self.ex0(e[2], None)
             b, tb, ob = self.ex0(e[3], None)
             if "bool" in (ta, tb) and op in ("+", "-", "*"):
@@ -658,6 +729,10 @@ class Emitter:
             return t, "bool", oa + ob
         if k == "call":
             f, args = e[1], e[2]
+            if f in ("MIN3", "MAX3"):
+                if len(args) != 3:
+                    raise TranslateError("%s arity" % f)
+                return self.ex0(("call", f[:3], [("call", f[:3], args[:2]), args[2]]), want)
             if f in ("MIN", "MAX"):
                 if len(args) < 2:
                     raise TranslateError("%s arity" % f)
@@ -698,11 +773,23 @@ class Emitter:
             if f == "sqrt":
                 a, _, oa = self.ex(args[0], "cost")
                 return "(csqrt %s)" % a, "cost", oa
+            if args and args[0][0] == "addr":
+                # f(&p, e1, ..): an oracle FUNCTION of the integer arguments (the struct is the one f was built from)
+                if args[0][1] not in self.struct_vars:
+                    raise TranslateError("%s: address of %s" % (self.fname, args[0][1]))
+                ts, obl = [], []
+                for a in args[1:]:
+                    at, _, oa = self.ex(a, "Z")
+                    ts.append(at)
+                    obl += oa
+                rty = "Z" if f in self.int_oracles else "cost"
+                self.used_calls[f] = ("fn", len(ts), rty)
+                return "(call_%s %s)" % (f, " ".join(ts)), rty, obl
             # any other function: an oracle parameter; the arguments must be the caller's own parameters
             key = tuple(repr(a) for a in args)
             if f in self.used_calls and self.used_calls[f] != key:
                 raise TranslateError("%s called with two different argument lists" % f)
-            own = [("var", n) for ty, n in self.params]
+            own = [("var", n) for ty, n in self.params if not n.endswith("_len")]
             for a in args:
                 if a not in own:
                     raise TranslateError("%s: call of %s with an argument that is not a parameter of the caller: %r" % (self.fname, f, a))
@@ -715,7 +802,7 @@ class Emitter:
             return extra
         raise TranslateError("expression %r" % (e,))
 
-    cost_min_ok = False
+    cost_min_ok = True
     ret_type = "cret * bool"
 
     def ex_extra(self, e, want):
@@ -728,7 +815,13 @@ class Emitter:
         pass
 
     def okline(self, obl):
-        return "".join("let ok := ok && inb %s %s in\n" % (n, i) for n, i in obl)
+        out = ""
+        for o in obl:
+            if len(o) == 2:
+                out += "let ok := ok && inb %s %s in\n" % o
+            else:
+                out += "let ok := ok && (negb %s || inb %s %s) in\n" % (o[2], o[0], o[1])
+        return out
 
     # ---- statements (continuation passing).  `defined` = set of variables that hold a value.
     def tuple_of(self, vs):
@@ -759,6 +852,15 @@ class Emitter:
                 ft, _, _ = self.ex(s["fill"], "cost")
                 return ("let %s_len := %s in\nlet %s := amake (fun _ => %s) %s_len in\n" % (n, t, n, ft, n)) + go(defined | {n, n + "_len"})
             return ("let %s_len := %s in\nlet %s := amake junk_%s %s_len in\n" % (n, t, n, n, n)) + go(defined | {n, n + "_len"})
+        if kind == "structinit":
+            # the members are the values the called function returned: parameters of the generated definition
+            c = s["call"]
+            own = [("var", n) for ty, n in self.params if not n.endswith("_len")]
+            if [a for a in own if a in c[2]] != list(c[2]):
+                raise TranslateError("%s: %s called with something else than the caller's parameters" % (self.fname, c[1]))
+            self.struct_calls = getattr(self, "struct_calls", {})
+            self.struct_calls[s["name"]] = c[1]
+            return go(defined | {s["name"] + "_" + f for f in self.struct_vars[s["name"]]})
         if kind == "assert":
             self.check_defined(uses(s["c"]), defined, s)
             ct, _, obl = self.ex(s["c"], "bool")
@@ -861,11 +963,12 @@ class Emitter:
                 raise TranslateError("%s: return inside a loop" % self.fname)
             self.check_defined(uses(s["e"]), defined, s)
             e = s["e"]
+            outs = "".join("%s, " % a for a in self.out_arrays)
             if e[0] == "call" and e[1] == "sqrt":
                 t, _, obl = self.ex(e[2][0], "cost")
-                return self.okline(obl) + "(RSqrt %s, ok)" % t
+                return self.okline(obl) + "(RSqrt %s, %sok)" % (t, outs)
             t, _, obl = self.ex(e, "cost")
-            return self.okline(obl) + "(RPlain %s, ok)" % t
+            return self.okline(obl) + "(RPlain %s, %sok)" % (t, outs)
         raise TranslateError("statement kind %s" % kind)
 
     def check_defined(self, used, defined, s):
@@ -876,8 +979,12 @@ class Emitter:
     def loop(self, s, defined, go):
         v = s["v"]
         body = s["body"]
-        if v in assigned(body):
+        if v in assigned([x for x in walk(body) if x["k"] != "for" or x["v"] != v]) and any(
+                (x["k"] == "assign" and x["lhs"] == ("var", v)) or (x["k"] == "decl" and x["name"] == v) or
+                (x["k"] == "for" and x["v"] == v) for x in walk(body)):
             raise TranslateError("%s: loop variable %s assigned in the loop" % (self.fname, v))
+        if assigned(body) & uses(s["hi"]):
+            raise TranslateError("%s: the bound of the loop over %s is modified inside the loop" % (self.fname, v))
         self.check_defined(uses(s["lo"]) | uses(s["hi"]), defined, s)
         lo, _, o1 = self.ex(s["lo"], "Z")
         hi, _, o2 = self.ex(s["hi"], "Z")
@@ -921,7 +1028,7 @@ class Emitter:
                 fv_fields |= {f for _, f in acc}
                 cl = []
                 calls(e, cl)
-                fv_calls |= {c[1] for c in cl if c[1] not in ("MIN", "MAX", "SEDIST", "fabs", "pow", "sqrt")}
+                fv_calls |= {c[1] for c in cl if c[1] not in ("MIN", "MAX", "MIN3", "MAX3", "abs", "SEDIST", "fabs", "pow", "sqrt")}
         # arrays read in the body need their length; input arrays their bound variables
         extra = set()
         for t in walk(body):
@@ -935,7 +1042,7 @@ class Emitter:
             if x not in carried and x != v and x not in env:
                 env.append(x)
         env = sorted(set(env))
-        params = [("call_" + c, "cost") for c in sorted(fv_calls)] + [(self.fld(f), COQTY[self.struct_fields[f]]) for f in sorted(fv_fields)] + \
+        params = [("call_" + c, self.call_type(c)) for c in sorted(fv_calls)] + [(self.fld(f), COQTY[self.struct_fields[f]]) for f in sorted(fv_fields)] + \
                  [(x, COQTY[self.types[x]]) for x in env]
         text = ("let %s := st in\n" % self.pat_of(st_vars)) if len(st_vars) > 1 else ("let %s := st in\n" % st_vars[0])
         if has_brk:
@@ -945,7 +1052,22 @@ class Emitter:
         call = "%s %s" % (name, " ".join(p for p, _ in params))
         init = self.tuple_of(carried + (["false"] if has_brk else []))
         outpat = self.pat_of(carried + (["_"] if has_brk else []))
-        return "let %s := fold_left (%s) (zrange %s %s) %s in\n" % (outpat, call.strip(), lo, hi, init) + go((defined | set(carried)) - {v})
+        rng = "(zdown %s %s)" % (lo, hi) if s.get("down") else "(zrange %s %s)" % (lo, hi)
+        post = ""
+        d2 = (defined | set(carried)) - {v}
+        if v in after:
+            # the loop variable is read after the loop: its value there is the first one that fails the test
+            if has_brk:
+                raise TranslateError("%s: loop variable %s is read after a loop that contains break" % (self.fname, v))
+            post = "let %s := %s in\n" % (v, ("(Z.min %s %s)" if s.get("down") else "(Z.max %s %s)") % (lo, hi))
+            d2 = d2 | {v}
+        return "let %s := fold_left (%s) %s %s in\n" % (outpat, call.strip(), rng, init) + post + go(d2)
+
+    def call_type(self, c):
+        k = self.used_calls.get(c)
+        if isinstance(k, tuple) and k and k[0] == "fn":
+            return " -> ".join(["Z"] * k[1] + [COQTY[k[2]]])
+        return "cost"
 
     def collect_len_vars(self, e, acc):
         if e[0] in ("idx", "slice"):
@@ -966,10 +1088,18 @@ class Emitter:
             raise TranslateError("%s: control reaches the end of the function" % self.fname)
         body = self.block(self.stmts, defined, end, None)
         allocs = sorted(s["name"] for s in walk(self.stmts) if s["k"] == "alloc" and s.get("fill") is None)
-        params = [("call_" + c, "cost") for c in sorted(self.used_calls)] + \
+        used_vars = set()
+        for s0 in walk(self.stmts):
+            for e0 in stmt_exprs(s0):
+                used_vars |= uses(e0)
+        members = [(sv + "_" + f, COQTY[ty]) for sv in sorted(self.struct_vars) for f, ty in self.struct_vars[sv].items()
+                   if sv + "_" + f in used_vars]
+        params = [("call_" + c, self.call_type(c)) for c in sorted(self.used_calls)] + \
                  [("junk_" + a, "Z -> cost") for a in allocs] + \
-                 [(n, COQTY[ty]) for ty, n in self.params if ty != "settings"] + \
+                 [(n, COQTY[ty]) for ty, n in self.params if ty != "settings"] + members + \
                  [(self.fld(f), COQTY[self.struct_fields[f]]) for f in sorted(self.used_fields)]
+        if self.out_arrays and self.ret_type == "cret * bool":
+            self.ret_type = "cret * %sbool" % "".join("list cost * " for _ in self.out_arrays)
         self.defs.append(("c_" + self.fname, params, self.ret_type, "let ok := true in\n" + body))
         return self.defs
 
@@ -984,6 +1114,10 @@ def parse_params(ptxt):
         m = re.fullmatch(r"(idx_t|int)\s+(\w+)", p)
         if m:
             out.append(("Z", m.group(2)))
+            continue
+        m = re.fullmatch(r"bool\s+(\w+)", p)
+        if m:
+            out.append(("bool", m.group(1)))
             continue
         m = re.fullmatch(r"DTWSettings\s*\*\s*(\w+)", p)
         if m:
@@ -1009,10 +1143,16 @@ def parse_struct(hdr, name):
     return out
 
 
-def translate_function(src, hdr, fname, in_bounds):
-    """-> list of (definition name, [(param, coq type)], return type, body text)"""
+def translate_function(src, hdr, fname, in_bounds, out_arrays=()):
+    """-> list of (definition name, [(param, coq type)], return type, body text);
+    out_arrays: {seq_t* parameter that is written: name of an extra parameter holding its number of cells}"""
     ptxt, body = function_text(strip_comments(src), fname)
     params = parse_params(ptxt)
+    out_arrays = dict(out_arrays)
+    params = [(("arr", n) if (ty == "in" and n in out_arrays) else (ty, n)) for ty, n in params]
+    for a, ln in out_arrays.items():
+        params.append(("Z", ln))
+    Emitter.struct_defs = {v: parse_struct(hdr, v) for v in STRUCT_TYPES.values()}
     body = preprocess(body)
     P = Parser(tokenize(body))
     stmts = []
